@@ -1050,6 +1050,15 @@ class Interp:
             return self.bind(self.eval(e.slice, q, ctx), lambda r, kv: self.getitem(r, ov, kv, ctx))
         return self.bind(self.eval(e.value, st, ctx), cont)
 
+    def ex_Slice(self, e, st, ctx):
+        def c(n):
+            if n is None:
+                return None
+            if isinstance(n, ast.Constant) and isinstance(n.value, int):
+                return n.value
+            raise OutOfReach("slice with non-constant bounds")
+        return [(st, Conc(slice(c(e.lower), c(e.upper), c(e.step))))]
+
     def ex_Lambda(self, e, st, ctx):
         return [(st, FuncV("lambda", node=e, env=st.env, ctx=ctx, name="<lambda>"))]
 
